@@ -11,6 +11,10 @@
  *   FLASHINIT a : <hex>        preset flash content at address a
  *   START                      update cycle up to the HTTP request (prints BASE a | NOUPDATE)
  *   SEG : <hex>                one TCP segment of the HTTP response -> recv callback
+ *   SEGFILL len seed           a segment of len filler bytes: b_i = (x_i + hi_i) & 255, x_0 = seed & 255,
+ *                              x_{i+1} = (5 x_i + 113) & 255, hi_i = ((seed >> 8) + i / 256) & 255
+ *   NOHALT                     callbacks keep being delivered after a restart / upgrade reboot was requested
+ *                              (system_restart() is asynchronous on the ESP8266)
  *   DISC [1]                   disconnect callback (1: reconnect/error callback)
  *   ARENA                      segments are handed over inside a large zeroed buffer (reads past the
  *                              segment return 00 instead of trapping under ASan)
@@ -42,7 +46,7 @@ extern unsigned long long v_sha_bytes;
 extern unsigned int v_sha_sum, v_sig_sum;
 extern size_t v_sig_len;
 
-static int halted = 0, started = 0;
+static int halted = 0, started = 0, nohalt = 0;
 static int or_mode = 0; static unsigned long long or_n = 0; static unsigned or_s = 0, or_g = 0;
 static unsigned char fails[8192]; static int fails_n = 0, fails_i = 0;
 static unsigned char heap_fill[8192]; static int heap_n = 0;
@@ -53,8 +57,8 @@ void *c18_malloc(size_t n) {
   return p;
 }
 void c18_flag_set(unsigned char f) { v_upgrade_flag = f; vout("FLAG %u", (unsigned)f); }
-void c18_upgrade_reboot(void) { vout("UPGRADEREBOOT"); halted = 1; }
-static void on_restart(void) { vout("RESTART"); halted = 1; }
+void c18_upgrade_reboot(void) { vout("UPGRADEREBOOT"); halted = !nohalt; }
+static void on_restart(void) { vout("RESTART"); halted = !nohalt; }
 int c18_rsa_sha256_verify(const struct rsa_public_key *key, struct sha256_ctx *hash, const mpz_t sig) {
   (void)key; (void)hash; (void)sig;
   int v = or_mode == 1 ? 1 : or_mode == 2 ? (v_sha_bytes == or_n && v_sha_sum == or_s && v_sig_len == 512 && v_sig_sum == or_g) : 0;
@@ -123,7 +127,18 @@ static void run_case(int n, char **lines) {
       if (!seen_start) for (int k = 0; k < len; k++) if (a + k < sizeof v_flash) v_flash[a + k] = buf[k];
     }
     else if (!strncmp(l, "START", 5)) { seen_start = 1; if (!started && !halted) do_start(); }
+    else if (!strncmp(l, "NOHALT", 6)) { nohalt = 1; }
     else if (!strncmp(l, "SEG", 3)) {
+      if (!strncmp(l, "SEGFILL", 7)) {             /* SEGFILL len seed: deterministic filler bytes (same expansion in the model) */
+        unsigned long fl_len = 0, fl_seed = 0; sscanf(l + 7, "%lu %lu", &fl_len, &fl_seed);
+        if (fl_len > 65535) fl_len = 65535;
+        unsigned x = fl_seed & 255, lo = 0, hi = (fl_seed >> 8) & 255;
+        for (unsigned long k = 0; k < fl_len; k++) {
+          buf[k] = (unsigned char)((x + hi) & 255); x = (x * 5 + 113) & 255;
+          if (++lo == 256) { lo = 0; hi = (hi + 1) & 255; }
+        }
+        len = (int)fl_len;
+      }
       if (!started || halted || len > 65535) continue;
       struct espconn *e = c18_conn();
       if (use_arena) {
